@@ -581,38 +581,100 @@ def fict_play_float(ctx, fcases, fmeta):
         ctx.mismatch("C20.Model.fp_series (float instance, bit-exact) vs FictitiousPlay.time_series", fmeta[i])
 
 
+def tlit(a, f):
+    if isinstance(a, list):
+        return "(Node [%s])" % "; ".join(tlit(x, f) for x in a)
+    return "(Leaf %s)" % f(a)
+
+
 def fict_play_three(ctx, thorough):
-    """three players (not in the two-player model): invariants by the oracle only"""
+    """N = 3 (and some N = 4) players: model nfp_series (nested payoff arrays, last-axis contraction) on the float instance
+    bit-exactly and on Q within 1e-12, plus the oracle of the invariants"""
     from quantecon.game_theory import FictitiousPlay, NormalFormGame, Player
     rng = ctx.rng
-    for _ in range(20 if thorough else 8):
-        ns = [rng.choice([2, 3]) for _ in range(3)]
-        players = []
-        for i in range(3):
-            shape = (ns[i], ns[(i + 1) % 3], ns[(i + 2) % 3])
-            players.append(Player(np.array([rng.randrange(-2, 4) for _ in range(shape[0] * shape[1] * shape[2])]).reshape(shape)))
-        g = NormalFormGame(players)
-        seed = rng.randrange(2 ** 31)
-        ts = 15
-        inp = {"class": "FictitiousPlay", "players": 3, "nums_actions": ns, "seed": seed}
-        okc, r = call(ctx, inp, lambda: (FictitiousPlay(g).time_series(ts, random_state=seed), FictitiousPlay(g).time_series(ts, random_state=seed)))
+    fcases, qcases, meta = [], [], []
+    for _ in range(120 if thorough else 40):
+        Np = rng.choice([3, 3, 3, 4])
+        ns = [rng.choice([2, 3]) if Np == 3 else 2 for _ in range(Np)]
+        arrays = []
+        for i in range(Np):
+            shape = tuple(ns[(i + k) % Np] for k in range(Np))
+            arrays.append(np.array([rng.randrange(-2, 4) for _ in range(int(np.prod(shape)))]).reshape(shape))
+        g = NormalFormGame([Player(a) for a in arrays])
+        gain = rng.choice([None, None, 0.5, 0.25])
+        ts = rng.choice([1, 2, 5, 12, 40])
+        t_init = rng.choice([0, 2])
+        dy = gain is not None
+        init = tuple(gen_belief(rng, n, True) for n in ns)
+        inp = {"class": "FictitiousPlay", "players": Np, "nums_actions": ns, "payoffs": [a.tolist() for a in arrays], "gain": gain, "ts": ts,
+               "t_init": t_init, "init": init}
+        fp = FictitiousPlay(g, gain=gain)
+        okc, o = call(ctx, inp, lambda: fp.time_series(ts, init_actions=init, t_init=t_init))
         if not okc:
             continue
-        o, o2 = r
-        ctx.case(("fp3", ns, seed, [p.payoff_array.tolist() for p in players]), nontrivial=True)
-        ctx.count("FP:three-player(oracle only)")
-        if any(not np.array_equal(a, b) for a, b in zip(o, o2)):
-            ctx.fail("seed", "equal seeds gave different histories", inp, None, None)
-        for i in range(3):
+        ctx.case(("fpN", inp["payoffs"], gain, ts, t_init, init), nontrivial=(ts >= 2), sample={"FictitiousPlay(N)": {"N": Np, "ns": ns, "gain": gain, "ts": ts}})
+        ctx.count("FP:N=%d players" % Np)
+        good = True
+        for i in range(Np):
             for j in range(ts):
                 row = o[i][j].tolist()
-                if min(row) < -1e-15 or abs(sum(row) - 1) > 1e-12:
+                if min(row) < -1e-15 or abs(sum(Fraction(x) for x in row) - 1) > ETOL:
                     ctx.fail("fp_probability_vector", "belief is not a probability vector", dict(inp, period=j, player=i), row, None)
-                if j >= 1:
-                    s = 1.0 / (j - 1 + 2)
-                    diff = [b - (1 - s) * a for a, b in zip(o[i][j - 1].tolist(), row)]
-                    if sorted(round(abs(d) / s, 9) for d in diff) != [0.0] * (len(diff) - 1) + [1.0]:
-                        ctx.fail("fp_update", "belief update is not (1-s)*old + s*e_br", dict(inp, period=j, player=i), row, None)
+                    good = False
+                if j >= 1 and good:
+                    s_ = Fraction(gain) if gain is not None else Fraction(1, t_init + j - 1 + 2)
+                    old = [Fraction(x) for x in o[i][j - 1].tolist()]
+                    new = [Fraction(x) for x in row]
+                    diff = [b_ - (1 - s_) * a_ for a_, b_ in zip(old, new)]
+                    br = max(range(len(diff)), key=lambda q: diff[q])
+                    want = [(1 - s_) * a_ + (s_ if q == br else 0) for q, a_ in enumerate(old)]
+                    # payoff vector of player i against the OLD beliefs of the others (exact multilinear form)
+                    opp = [[Fraction(x) for x in o[(i + k) % Np][j - 1].tolist()] for k in range(1, Np)]
+                    pv = []
+                    for a_ in range(ns[i]):
+                        tot = Fraction(0)
+                        for prof in itertools.product(*[range(len(v)) for v in opp]):
+                            w = Fraction(1)
+                            for k, ak in enumerate(prof):
+                                w *= opp[k][ak]
+                            tot += w * int(arrays[i][(a_,) + prof])
+                        pv.append(tot)
+                    if max(abs(x - y) for x, y in zip(want, new)) > ETOL:
+                        ctx.fail("fp_update", "belief update is not (1-s)*old + s*e_br with the documented step size", dict(inp, period=j, player=i), row, [float(x) for x in want])
+                        good = False
+                    elif pv[br] < max(pv) - Fraction(1, 10 ** 8) - Fraction(1, 10 ** 9):
+                        ctx.fail("fp_best_response", "belief moved towards an action that is not a best response to the old beliefs", dict(inp, period=j, player=i), br, None)
+                        good = False
+            if not good:
+                break
+        if ts >= 2:
+            okc, fin = call(ctx, dict(inp, call="play"), lambda: fp.play(actions=init, num_reps=ts - 1, t_init=t_init))
+            if okc and any(fin[i].tolist() != o[i][-1].tolist() for i in range(Np)):
+                ctx.fail("play_mismatch", "FictitiousPlay.play(num_reps) differs from the last row of time_series", dict(inp, call="play"), None, None)
+        x0 = [as_vec(init[i], ns[i]) for i in range(Np)]
+        per = [[o[i][j].tolist() for i in range(Np)] for j in range(ts)]
+        tolf = Player(arrays[0]).tol
+        fcases.append(tup("[" + "; ".join(tlit(a.tolist(), lambda v: flit(v) + "%float") for a in arrays) + "]",
+                          "None" if gain is None else "(Some %s%%float)" % flit(gain), flit(tolf) + "%float", flist2(x0), zlit(t_init), natlit(ts - 1),
+                          "[" + "; ".join(flist2(r) for r in per) + "]"))
+        if dy or ts <= 12:
+            qcases.append(tup("[" + "; ".join(tlit(a.tolist(), lambda v: qlit(frac(v))) for a in arrays) + "]",
+                              optq(gain), qlit(frac(tolf)), qlist2([[frac(v) for v in r] for r in x0]), zlit(t_init), natlit(ts - 1), blit(dy and ts <= 12),
+                              "[" + "; ".join(qlist2([[frac(v) for v in r] for r in rr]) for rr in per) + "]"))
+        meta.append(inp)
+    bad = ctx.coq_check("FictitiousPlay(N players).time_series(float, bit-exact)", IMPORTS,
+                        "list (@tensor float) * option float * float * list (list float) * Z * nat * list (list (list float))",
+                        "fun c => let '(arr, gain, tol, xs, t0, k, e) := c in match nfp_series arr gain tol xs t0 k with "
+                        "Some (h, f) => list_eqb Fss_eqb (map fst (h ++ [f])) e | None => false end", fcases, chunk=10, preamble=PREAMBLE)
+    for i in bad:
+        ctx.mismatch("C20.Model.nfp_series (float instance, bit-exact) vs FictitiousPlay.time_series with N players", meta[i])
+    bad = ctx.coq_check("FictitiousPlay(N players).time_series(Q)", IMPORTS,
+                        "list (@tensor Q) * option Q * Q * list (list Q) * Z * nat * bool * list (list (list Q))",
+                        "fun c => let '(arr, gain, tol, xs, t0, k, exact, e) := c in match nfp_series arr gain tol xs t0 k with "
+                        "Some (h, f) => if exact then list_eqb Qss_eqb (map fst (h ++ [f])) e else list_eqb (Qss_close (1 # 1000000000000)) (map fst (h ++ [f])) e "
+                        "| None => false end", qcases, chunk=10, preamble=PREAMBLE)
+    if bad:
+        ctx.mismatch("C20.Model.nfp_series (Q instance) vs FictitiousPlay.time_series with N players", {"cases": bad[:5]})
 
 
 # ------------------------------------------------------------------ LocalInteraction
@@ -864,14 +926,20 @@ FLOAT_AXIOMS = ("FloatAxioms.Prim2SF_valid", "FloatAxioms.SF2Prim_Prim2SF", "Flo
                 "FloatAxioms.leb_spec", "FloatAxioms.add_spec", "FloatAxioms.mul_spec", "FloatAxioms.eqb_spec", "FloatAxioms.compare_spec",
                 "ClassicalDedekindReals.sig_forall_dec", "ClassicalDedekindReals.sig_not_dec", "Classical_Prop.classic",
                 "FunctionalExtensionality.functional_extensionality_dep")
+# further axioms of the LOADED library Coq.Floats.FloatAxioms (specifications of primitive operations that no C10/C20 theorem
+# uses; coqchk -o lists the axioms of every loaded library, Print Assumptions only those a theorem depends on)
+FLOAT_LIB_AXIOMS = tuple("FloatAxioms." + n for n in (
+    "of_uint63_spec", "div_spec", "sub_spec", "Leibniz.eqb_spec", "frshiftexp_spec", "next_down_spec", "compare_spec", "ldshiftexp_spec",
+    "opp_spec", "next_up_spec", "abs_spec", "sqrt_spec", "classify_spec", "eqb_spec", "normfr_mantissa_spec"))
 
 
 def run(ctx):
     thorough = ctx.tier == "thorough"
     # PropsFloat.v: binary64 instances through Flocq; they rest on the standard library's specification of the primitive
     # float operations (FloatAxioms) and on the classical reals, each axiom named in the evidence
-    ctx.proofs(["C20/Props.v", "C20/PropsFloat.v"], extra_axioms=FLOAT_AXIOMS)
-    ctx.assumptions += ["axioms used only by *PropsFloat.v: " + ", ".join(FLOAT_AXIOMS)]
+    ctx.proofs(["C20/Props.v", "C20/PropsFloat.v"], extra_axioms=FLOAT_AXIOMS + FLOAT_LIB_AXIOMS)
+    ctx.assumptions += ["axioms used only by *PropsFloat.v: " + ", ".join(FLOAT_AXIOMS),
+                        "axioms of the loaded library FloatAxioms not used by any theorem (listed by coqchk -o): " + ", ".join(FLOAT_LIB_AXIOMS)]
     ctx.trusted += ["float fact used by C20_logit_range: for the cumulative weights c = cdf[-1] of the game and 0 <= u < 1, not (c <= u*c) "
                     "(hypothesis of the generic theorem; proved for Q in Props.v and for binary64 in PropsFloat.v through Flocq: FloatAxioms.*, classical reals)",
                     "NumPy searchsorted(side='right') modelled by its specification on sorted arrays; exp() values are read from the object"]
